@@ -43,6 +43,9 @@ def run(chk):
         from .. import heapuse
         # a block released through a field of the parser must not stay reachable through that field (reset / free would release it again)
         heapuse.rule_dangling_fields(chk, prog, "C08.R6", only_modules={"json_tokener.c"})
+        # a parse entry that hands a NULL out-parameter to another must not have it written on any path (e.g. the allocation-failure exit)
+        from .. import nullflow as _nf
+        _nf.rule_null_literal_args(chk, prog, "C08.R1n", only_modules={"json_tokener.c", "json_util.c"}, floor=0)
         c15.r_safety(chk, prog, "C04.R8")       # the level stack is never indexed outside its allocation (automaton, shared with C15)
         # the buffers and containers the parser fills: every write inside the allocation (shared with C19 / C07 / C06)
         from . import c19, c07, c06
